@@ -454,14 +454,23 @@ Definition render (p : payload) : jbody :=
 Section Server.
 Variable mfa : str -> option str.
 Variable cfg : scfg.
+(** Whether the stored content of message [k] of mailbox [mb] can (still) be opened: the file
+    store looks a message up in the index under the mailbox lock and opens its content file
+    later without one, so the file may have vanished meanwhile (a removal that completes in
+    between, a lost file). [Message.Source()] then fails. An arbitrary function here. *)
+Variable srcok : str -> nat -> bool.
 Variable base : list str.
 
 Definition get_res (o : obs) : res view := match o with OGet r => r | _ => Err end.
 Definition unit_res (o : obs) : res unit := match o with OUnit r => r | _ => Err end.
 Definition list_res (o : obs) : list view := match o with OList l => l | _ => [] end.
 
+Definition with_src (mb : str) (a : get_ans) : get_ans :=
+  {| ga_msg := ga_msg a; ga_err := ga_err a;
+     ga_src := match ga_msg a with Some v => srcok mb (fst v) | None => true end |}.
+
 Definition st_get (st : spec_store) (mb : str) (id : str) : get_ans :=
-  let '(_, o, _) := exec_spec cfg st (Get mb (handle_of_id id)) in ans_of_res (get_res o).
+  let '(_, o, _) := exec_spec cfg st (Get mb (handle_of_id id)) in with_src mb (ans_of_res (get_res o)).
 
 (** MarkSeen / RemoveMessage know no "latest": the id is compared literally. *)
 Definition lit_handle (id : str) : handle :=
@@ -567,7 +576,7 @@ Definition spec_handler (st : spec_store) (h : hid) (name id num : str) (body : 
   | Some mb =>
       let on_msg (f : view -> resp) : option (spec_store * resp) :=
         match spec_get st mb id with
-        | Ok v => Some (st, f v)
+        | Ok v => if srcok mb (fst v) then Some (st, f v) else None   (* content gone: any well-formed answer *)
         | NotExist => Some (st, (S404, PNone))
         | Err => None
         end in
@@ -740,7 +749,11 @@ Definition spec_cop (st : spec_store) (op : cop) : option (spec_store * cres) :=
 Inductive hop :=
 | HAdd (mb : str) (date : Z) (tag size : N)
 | HReq (rq : request)
-| HCli (op : cop).
+| HCli (op : cop)
+(* a request racing with a removal of message [k] of [mb] that completes between the look-up of
+   the message and the opening of its content: the request is served (with [srcok mb k] as the
+   environment says), then the message is gone *)
+| HRace (rq : request) (mb : str) (k : nat).
 
 Inductive hout := OAdded (k : nat) | OResp (r : resp) | OCli (c : cres).
 
@@ -751,6 +764,9 @@ Definition hstep (cbase : str) (st : spec_store) (o : hop) : spec_store * hout :
       (st', OAdded (match ob with OAdd k _ => k | _ => O end))
   | HReq rq => let '(st', r) := serve st rq in (st', OResp r)
   | HCli op => let '(st', c) := client_do cbase st op in (st', OCli c)
+  | HRace rq mb k =>
+      let '(st', r) := serve st rq in
+      (fst (fst (exec_spec cfg st' (Remove mb (Kth k)))), OResp r)
   end.
 
 Definition hspec (st : spec_store) (o : hop) : option (spec_store * hout) :=
@@ -760,6 +776,11 @@ Definition hspec (st : spec_store) (o : hop) : option (spec_store * hout) :=
       Some (st', OAdded (match ob with OAdd k _ => k | _ => O end))
   | HReq rq => match spec_serve st rq with Some (st', r) => Some (st', OResp r) | None => None end
   | HCli op => match spec_cop st op with Some (st', c) => Some (st', OCli c) | None => None end
+  | HRace rq mb k =>
+      match spec_serve st rq with
+      | Some (st', r) => Some (fst (fst (exec_spec cfg st' (Remove mb (Kth k)))), OResp r)
+      | None => None
+      end
   end.
 
 End Server.
